@@ -1,7 +1,7 @@
 (* C05, part 3: K without resizes, and index lookups. *)
 From Coq Require Import ZArith List Bool Lia Arith.
 From Coq Require Import ZifyBool.
-From Galene Require Import Lib.Word Model.Cache Proofs.CacheSound Proofs.CacheRing.
+From Galene Require Import Lib.Word Lib.Ring Model.Cache Proofs.CacheSound Proofs.CacheRing.
 Import ListNotations.
 Open Scope Z_scope.
 
